@@ -23,7 +23,7 @@ class ExprMixin:
     def oblige(self, path, kind, goal, node=None, note="", assume=True):
         if isinstance(goal, bool):
             goal = z3.BoolVal(goal)
-        if not kind.startswith("safe:") and "." not in kind.split(":")[0] and len(_flat_and(goal)) > 1:
+        if not kind.startswith("safe:") and "." not in kind.split(":")[0] and "[" not in kind and len(_flat_and(goal)) > 1:
             # one obligation per conjunct: a failure then names the clause
             base, _, rest = kind.partition(":")
             for i, part in enumerate(_flat_and(goal), 1):
@@ -172,7 +172,7 @@ class ExprMixin:
                 return sv.NONE
             r = items[-1]
             for j in range(len(items) - 2, -1, -1):
-                r = sv.ite(i == j, items[j], r)
+                r = sv.ite(sv.simp(i == j), items[j], r)
             return r
 
         lst = sv.SList(z3.IntVal(len(items)), at, fresh=True)
